@@ -145,6 +145,7 @@ _W = {}
 def _worker_init(pid, repo):
     import logging
     logging.disable(logging.CRITICAL)
+    sys.stderr = open(os.devnull, 'w')     # ANTLR console listener / XMLReader chatter
     _W['prop'] = load_prop(pid)
     _W['memo'] = {}
     init = getattr(_W['prop'], 'worker_init', None)
@@ -274,6 +275,8 @@ def run_property(pid, tier, seed, jobs=None, time_cap=None):
             violations.append((clause, wstr, w, detail, origin))
 
     # determinism gate + replay files
+    real_stderr = sys.stderr
+    sys.stderr = open(os.devnull, 'w')
     replay_paths = []
     for (clause, wstr, w, detail, origin) in violations:
         r1 = sorted(f.clause for f in safe_check(prop, w))
@@ -284,6 +287,7 @@ def run_property(pid, tier, seed, jobs=None, time_cap=None):
             cleanup_tmp()
             return 2
         replay_paths.append(write_replay(pid, clause, w, wstr, detail, origin))
+    sys.stderr = real_stderr
     cleanup_tmp()
 
     for (clause, wstr, text) in known_hits:
